@@ -43,6 +43,12 @@ def progs():
         ("bqm", "def prog(a: Qint[2], b: Qint[2]) -> Qint[4]:\n    return a * b\n"),
         ("bqm", "def prog(a: bool, b: bool, c: bool, d: bool) -> bool:\n    return a ^ b ^ c ^ d\n"),
         ("bqm", "def prog(a: bool, b: bool, c: bool, d: bool) -> bool:\n    return a or b or c or d\n"),
+        ("bqm", "def prog(a: bool, b: bool, c: bool) -> bool:\n    return (not a) ^ (not b) ^ (not c)\n"),
+        ("bqm", "def prog(a: bool, b: bool, c: bool, d: bool, e: bool) -> bool:\n    return (not a) ^ (not b) ^ (not c) ^ (not d) ^ (not e)\n"),
+        ("bqm", "def prog(a: bool, b: bool, c: bool) -> bool:\n    return (not a) ^ b ^ (not c)\n"),
+        ("bqm", "def prog(a: bool, b: bool, c: bool, d: bool) -> Tuple[bool, bool]:\n    return ((not a) ^ (not b) ^ (not c), (not a) ^ (not (b and d)) ^ (not c) ^ d)\n"),
+        ("bqm", "def prog(a: Qint[4], b: bool) -> Qint[4]:\n    return (a >> 1) ^ (4 if b else 0)\n"),
+        ("bqm", "def prog(a: Qint[2], b: Qint[2]) -> Qint[2]:\n    return (a - 1) - b\n"),
     ]
     return extra + P
 
@@ -57,6 +63,10 @@ DECODE_SIGS = [
     "def prog(a: Qint[16]) -> bool:\n    return a[15] and a[11] and a[1]\n",
     "def prog(a: Tuple[Qint[2], Tuple[bool, bool]]) -> bool:\n    return a[0] == 1 and a[1][0] and not a[1][1]\n",
     "def prog(a: Qchar) -> bool:\n    return a == 'q'\n",
+    "def prog(a: Tuple[Tuple[bool, Qint[2]], bool]) -> bool:\n    return a[0][0] and a[1] and a[0][1] == 2\n",
+    "def prog(a: Tuple[bool, Tuple[bool, Qint[3]], Qint[2]]) -> bool:\n    return a[0] and a[1][0] and a[1][1] == 5 and a[2] == 1\n",
+    "def prog(a: Qlist[Tuple[bool, Qint[2]], 2], b: bool) -> bool:\n    return a[0][0] and a[1][1] == 3 and b\n",
+    "def prog(a: Tuple[bool, Qint[4], bool], b: Tuple[Qint[2], bool, bool]) -> bool:\n    return a[0] and a[1] == 9 and b[0] == 2 and b[2]\n",
     "def prog(a: Qint[3], b: Qint[3]) -> Qint[3]:\n    return a + b\n",
     "def prog(a: Qmatrix[bool, 2, 2]) -> bool:\n    return a[0][0] and a[1][1] and not a[0][1]\n",
     "def prog(a: Qint[2], b: bool) -> bool:\n    return b\n",
@@ -134,7 +144,10 @@ def check_item(spec):
         finding("foreign-variable", "model mentions %s, neither argument bits nor declared auxiliaries" % foreign)
     benv = boolq.seq_env(qf.expressions, ins)
     retz = [benv[r] for r in rets]
-    count = z3.Sum([z3.If(t, 1, 0) for t in retz])
+    W = pyqubo_stub.Poly.W
+    count = z3.BitVecVal(0, W)
+    for t in retz:
+        count = count + z3.If(t, z3.BitVecVal(1, W), z3.BitVecVal(0, W))
     E = poly.t
     aux = sorted(v for v in allv if v not in ins)
     if len(aux) > 4:
@@ -157,11 +170,11 @@ def check_item(spec):
         if v != "sat":
             s.pop()
             return None
-        cur = s.model().eval(term, model_completion=True).as_long()
+        cur = s.model().eval(term, model_completion=True).as_signed_long()
         while True:
             v = st.check(s, term < cur)
             if v == "sat":
-                cur = s.model().eval(term, model_completion=True).as_long()
+                cur = s.model().eval(term, model_completion=True).as_signed_long()
             elif v == "unsat":
                 break
             else:
@@ -190,7 +203,7 @@ def check_item(spec):
     v = st.check(s, E == emin, count > cmin)
     if v == "sat":
         m = s.model()
-        finding("ground-state-not-minimiser", "input %s has minimum energy %d but makes %d return bits true (minimum is %d)" % (show(m), emin, m.eval(count, model_completion=True).as_long(), cmin), {"inputs": show(m)})
+        finding("ground-state-not-minimiser", "input %s has minimum energy %d but makes %d return bits true (minimum is %d)" % (show(m), emin, m.eval(count, model_completion=True).as_signed_long(), cmin), {"inputs": show(m)})
     elif v != "unsat":
         res.update(status="inconclusive", note="solver " + v)
     v = st.check(s, count == cmin, estar_gt(emin))
